@@ -19,7 +19,7 @@ CHECKS = {
          "Every (history, role, compression, opcode, FIN, RSV1-3, MASK, length class) cell (122 880) and 57 close bodies per state are executed; VIOLATION cells must fail-stop with sticky error and a 1002 close, LEGAL cells must be delivered, UNSPECIFIED cells only must not panic (exhaustive at that abstraction). A seeded family adds generated conformant prefixes + one violating frame under random buffer sizes, chunkings and read programs including abandoned messages.",
          "receiver model written from RFC 6455/7692 (internal/props/c04.go classify); length classes and histories stand for all lengths/histories", "3/C04"),
  "C05": ("fault_enumeration", "runtime monitoring with fault injection: every cut offset x 6 fault kinds on generated streams, scripted transport, lower<=complete<=upper oracle and sticky-error check",
-         "For each generated stream every byte offset and every way an io.Reader may report the failure is injected (after transient faults the transport resumes delivering in half of the executions); the number of messages reported complete must lie between what had arrived before the failing read and what the cut contains, each byte-identical, then a permanent error; read through ReadMessage, NextReader (a failed reader is tried again) or JoinMessages.",
+         "For each generated stream every byte offset and every way an io.Reader may report the failure is injected (after transient faults the transport resumes delivering in half of the executions); the number of messages reported complete must lie between what had arrived before the failing read and what the cut contains, each byte-identical, then a permanent error; read through ReadMessage, NextReader (a failed reader is tried again) or JoinMessages; a family of 64 KiB - 1 MiB single-frame messages; failed connections polled up to the documented 999 calls.",
          "streams/chunkings/read programs sampled; cut offsets x fault kinds exhaustive per stream; DEFLATE BFINAL early completion is not judged", "3/C05"),
  "C06": ("exploration", "runtime monitoring: limit model over generated histories and fragmentations, decoded 1009 close, heap-allocation counter probe",
          "Seeded exploration of (L, read history, target size around L / huge claimed lengths / compressed targets whose wire size is around L, crossing frame, controls, chunking); within-limit messages must be readable whatever the history, over-limit ones refused before the crossing frame's payload with ErrReadLimit + 1009; allocation must not grow with the claimed length; the limit may have been absent or larger earlier on the connection or be re-set (same value) between messages and between Reads; a refused reader delivers nothing on retry; a crossing frame is refused although its payload never arrives; application close handlers never run on a breach.",
@@ -37,7 +37,7 @@ CHECKS = {
          "Every close position x 7 close paths per generated program is executed; in the concurrent family the close frame is held inside the transport while other goroutines call the write API, then the history (each operation carrying the wire position of its frame) must be linearizable and nothing may follow the close frame; a further family sends closes through four paths after an earlier failed transport write.",
          "schedules sampled; porcupine v1.3.0 as history checker", "3/C09"),
  "C10": ("fault_enumeration", "runtime monitoring with fault injection at every transport operation index x {error, timeout, short write}; byte-exact prefix comparison with the fault-free run (replayed mask keys); deadline values used as identifiers in the transport log",
-         "For each generated program (with invalid requests and distinct deadlines) every SetWriteDeadline/Write index is faulted in three ways; written bytes must be a valid-frame prefix of the clean run, nothing is written afterwards, every later message-level call fails; invalid requests write nothing; every Write is preceded by the expected deadline.",
+         "For each generated program (with invalid requests and distinct deadlines) every SetWriteDeadline/Write index is faulted in six ways (plain error, timeout, short write, errors wrapping os.ErrNoDeadline / io.ErrShortWrite, short write + timeout); written bytes must be a valid-frame prefix of the clean run, nothing is written afterwards, every later message-level call fails; invalid requests write nothing; every Write is preceded by the expected deadline; no write-side call touches the read deadline; stale writers closed at the end fail after a fault.",
          "mask keys replayed through VerifSetMaskRand; programs sampled, fault points exhaustive per program", "3/C10"),
  "C11": ("exploration", "Go race detector + transport overlap/sequence monitors + independent decoding of both directions + porcupine history check under goroutine stress; gate scenario for WriteControl deadlines; shared PreparedMessage/pool scenario",
          "W1/W2/W3 scenario families run in a plain and a -race build; zero race reports attributed to the library, no overlapping transport writes, contiguous well-formed frames, intact round trip, linearizable write-side history, at every transport Write of an own frame the armed write deadline is the one in force for that frame (values compared, not the clock), WriteControl returning a timeout error (and leaving no frame) while the connection is held.",
